@@ -27,7 +27,7 @@
    Proto/*Model.v instances: CloseProofs (req, rep, pair, sub).
 
    [fixes]: the pinned tree's behaviour (false) or the repaired one (true) for the
-   five defects found with this model; Gen/Consts.v says which form the source has.
+   defects found with this model; Gen/Consts.v says which form the source has.
    Definitions only. *)
 From Coq Require Import List Arith NArith Bool.
 Import ListNotations.
@@ -40,7 +40,8 @@ Record fixes := mkFixes {
   fx_epid : bool;      (* endpoint id allocated before the endpoint is linked into the socket (pinned: after) *)
   fx_ctxfini : bool;   (* nni_ctx_rele runs ctx_fini inside the sock_lk section (pinned: after unlocking) *)
   fx_lateop : bool;    (* sock_close runs the protocol's sock_close once more after the wait for references *)
-  fx_ctxopen : bool }. (* nni_ctx_open closes (pinned: only releases) the context it created on a socket that is shutting down *)
+  fx_ctxopen : bool;   (* nni_ctx_open closes (pinned: only releases) the context it created on a socket that is shutting down *)
+  fx_ctxmark : bool }. (* sock_shutdown marks EVERY context closed (false: only the idle ones, c_ref == 0) *)
 
 Inductive phase := PhMsgq | PhProto | PhFini.   (* which step completes the socket-level pending set *)
 
@@ -213,14 +214,14 @@ Fixpoint close_pipes (i : nat) (sel : pipest -> bool) (ps : list pipest) : list 
   end.
 
 (* sock_shutdown's context loop (under sock_lk): mark closed; unreferenced ones are destroyed on the spot *)
-Fixpoint shut_ctxs (cs : list ctxst) : list ctxst * list N :=
+Fixpoint shut_ctxs (markall : bool) (cs : list ctxst) : list ctxst * list N :=
   match cs with
   | [] => ([], [])
   | c :: r =>
-      let '(r', l) := shut_ctxs r in
+      let '(r', l) := shut_ctxs markall r in
       if c_onlist c then
         if c_ref c =? 0 then (cset_fini (cset_unlink (cset_closed c)) :: r', c_pend c ++ l)
-        else (cset_closed c :: r', l)
+        else ((if markall then cset_closed c else c) :: r', l)   (* busy: destroyed by its last nni_ctx_rele, because c_closed is set *)
       else (c :: r', l)
   end.
 
@@ -383,7 +384,7 @@ Definition run_act (fx : fixes) (s : st) (a : act) : option (st * list act) :=
       | _ => Some (s, [])
       end
   | AShutCtxs =>
-      let '(cs, l) := shut_ctxs (ctxs s) in
+      let '(cs, l) := shut_ctxs (fx_ctxmark fx) (ctxs s) in
       Some (set_done (set_ctxs s cs) (done s ++ fail_all C_ECLOSED l), [])
   | AWaitCtxs => if any_ctx_onlist s then None else Some (s, [])
   | AWaitPipes => if any_pipe_onlist s then None else Some (s, [])
@@ -440,7 +441,7 @@ Definition run_act (fx : fixes) (s : st) (a : act) : option (st * list act) :=
       match nth_error (ctxs s) c with
       | Some x =>
           if k_freed k then Some (add_bad s B_SOCK_FREED, [])     (* ctx_fini locks the protocol socket *)
-          else Some (set_done (set_ctxs s (upd (ctxs s) c cset_fini)) (done s ++ fail_all C_ECLOSED (c_pend x)), [])
+          else Some (set_done (set_ctxs s (upd (ctxs s) c (fun x => cset_fini (cset_unlink x)))) (done s ++ fail_all C_ECLOSED (c_pend x)), [])
       | None => Some (s, [])
       end
   (* ---- endpoints ---- *)
@@ -675,5 +676,5 @@ Fixpoint run (fx : fixes) (s : st) (ls : list label) : option st :=
 Definition init (ph : phase) (latch finic : bool) : st :=
   mkSt (mkSock false false false 0 true false false [] ph latch finic false) [] [] [] [] [] [] [] [] [] [].
 
-Definition fixes_all : fixes := mkFixes true true true true true.
-Definition fixes_none : fixes := mkFixes false false false false false.
+Definition fixes_all : fixes := mkFixes true true true true true true.
+Definition fixes_none : fixes := mkFixes false false false false false false.
